@@ -309,7 +309,7 @@ def random_session(rng):
 
 # ------------------------------------------------------------------ the generated tables
 def observe_targets():
-    """[(early kw or None, outgoing kw or None, [names of the lists that grew])]"""
+    """[(early kw or None, outgoing kw or None, [indices in LISTS of the lists that grew])]"""
     C, Packet, _ = _mods()
     rows = []
     for e in (None, False, True):
@@ -322,7 +322,7 @@ def observe_targets():
             if o is not None:
                 kw['outgoing'] = o
             conn.register_packet_listener(lambda p: None, Packet, **kw)
-            grew = [n for n in LISTS for _ in range(len(getattr(conn, n)) - before[n])]
+            grew = [k for k, n in enumerate(LISTS) for _ in range(len(getattr(conn, n)) - before[n])]
             rows.append((e, o, grew))
     return rows
 
@@ -438,10 +438,10 @@ def generate():
          '/-- `(child, parent)` edges of the probe classes (1 = the real `Packet`), from `__bases__`. -/',
          'def liveHier : Hier := [%s]' % ', '.join('(%d, %d)' % e for e in edges),
          '',
-         '/-- `(early=, outgoing=, lists that grew by one element)`; `none` = keyword omitted. -/',
-         'def liveTargets : List (Option Bool × Option Bool × List String) := [']
-    L.append(',\n'.join('  (%s, %s, [%s])' % (lopt(e), lopt(o), ', '.join('"%s"' % n for n in g))
-                        for e, o, g in observe_targets()))
+         '/-- `(early=, outgoing=, lists that grew by one element)`; `none` = keyword omitted; lists by number:',
+         '%s. -/' % ', '.join('%d = `%s`' % (k, n) for k, n in enumerate(LISTS)),
+         'def liveTargets : List (Option Bool × Option Bool × List Nat) := [']
+    L.append(',\n'.join('  (%s, %s, %s)' % (lopt(e), lopt(o), lnats(g)) for e, o, g in observe_targets()))
     L += ['  ]', '',
           '/-- The registration sequence of `liveRuns`: `(id, types, early, outgoing)`. -/',
           'def liveRunRegs : List (Nat × List Nat × Bool × Bool) := [']
